@@ -502,6 +502,12 @@ class RecordingSubscriber(BaseSubscriber):
         f = d.point(key, 'before')
         if f is not None:
             raise_for(f, d, key, 'before')
+        if bytes_transferred < 0:
+            # progress being taken back (a body re-sent / a download range re-requested): addressable on its own
+            key2 = d.occurrence(f'{self.label}/cb:on_progress_rewind:{self.name}')
+            f = d.point(key2, 'before')
+            if f is not None:
+                raise_for(f, d, key2, 'before')
 
     def on_done(self, future, **kwargs):
         d = self.w.director
